@@ -28,6 +28,20 @@ NEEDS = {
     "C17-1": "a scalar (one-element) variable signal that is not the first signal: xnew[i] written instead of xnew[cumlens[i]]",
     "C18-1": "add_sensitivity through a slice whose index tuple has a slice/Ellipsis/integer before an integer array (numpy returns a view of a temporary: .base is not None although it is a copy)",
     "C19-1": "the perturbed input is a SignalSlice with an advanced (integer-array / mask) index: the restore never reaches the base signal for the last perturbed entry",
+    "C02-2": "a nested Network that is extended with inner.append(...) after the outer network was built (the outer network's signal snapshot is stale), then a second response/reset/seed/sensitivity cycle",
+    "C03-2": "a reused LinSolve/SystemOfEquations (LDAWrapper) whose first matrix has a fully decoupled dof that becomes coupled in a later same-size matrix (decoupled-dof partition detected once per matrix shape)",
+    "C04-2": "SystemOfEquations with a seed on output b only, on a sensitivity() call that is not the first since the last response() (adjoint-load buffer not re-initialised)",
+    "C05-2": "one SolverDenseCholesky object re-used via update(): positive-definite matrix first, later a Hermitian indefinite one (success flag stays True, stale factor used)",
+    "C06-2": "a block right-hand side in which one column is much smaller than the others (residual normalised by the whole block's norm)",
+    "C07-2": "StaticCondensation with a non-symmetric matrix whose free-free block alone is symmetric, or a symmetric first matrix followed by a non-symmetric one (A_mf replaced by A_fm^H when the inner LinSolve's Hermitian flag is set)",
+    "C10-2": "two array-valued design-variable signals whose float64 initial states are the same array object (in-place write-back)",
+    "C11-2": "dense symmetric problem with an eigenvector whose mean entry is bit-exactly zero (np.sign(0) = 0 zeroes the vector)",
+    "C15-2": "a dyad added with v omitted (symmetric) followed by in-place zeroing of rows only or columns only (u and v share storage)",
+    "C16-2": "PNorm with p < 0 on positive data where (max/min)^|p| overflows although every |x_i|^p is representable (normalisation by the maximum)",
+    "C17-2": "two consecutive reachable-volume iterations whose Lagrange multipliers differ by more than 10x (warm-started bisection interval + guard that never fires)",
+    "C18-2": "reset() of a slice whose index tuple has an integer array after a slice/Ellipsis (.base is not None although it is a copy)",
+    "C19-2": "relative_dx=True with a complex perturbed input and a non-holomorphic map (scale factor x0 instead of |x0| rotates the perturbation direction)",
+    "C20-2": "ScalarToFile logging a non-C-contiguous array view (values in memory order, header names in C order) -- re-based onto the repaired tree",
     "C20-1": "scale != 1 and at least two writes with the same DomainDefinition (element_size view scaled in place): Spacing wrong from the second file on",
 }
 
